@@ -389,7 +389,7 @@ def C19(rep, prog, tier):
                        "REV.relation, C.empty-minimum, CHECK.three-way, MODEL.extract, REV.entry. Existence and Pareto minimality of "
                        "the returned parameters are not decided")
     ex = Explorer(prog, rep)
-    crev.check_all(rep, ex)
+    crev.check_all(rep, ex, tier)
 
 
 CHECKS = {"C19": C19, "C01": C01, "C02": C02, "C03": C03, "C04": C04, "C05": C05, "C06": C06, "C07": C07, "C09": C09, "C10": C10, "C11": C11, "C12": C12, "C13": C13, "C14": C14, "C16": C16, "C17": C17, "C18": C18, "C20": C20, "C15": C15}
